@@ -265,7 +265,14 @@ class Summariser:
             if pk is not None:
                 raise NotSummarisable('wire object used as a value: ' + norm(e))
             seq = self.expr(base, env)
-            return ('index', seq, self.expr(e.slice, env))
+            idx = self.expr(e.slice, env)
+            out = ('index', seq, idx)
+            if isinstance(seq, tuple) and seq[0] == 'attr':
+                # element stores made earlier on this path are visible to the read (program order inside the method)
+                for g, sname, i, v in env.stores:
+                    if sname == seq[1]:
+                        out = ite(g_and(g, fold_const(('cmp', '==', i, idx))), v, out)
+            return out
         if isinstance(e, ast.Call):
             return self.call(e, env)
         raise NotSummarisable('expression ' + type(e).__name__ + ' ' + norm(e)[:60])
